@@ -296,6 +296,98 @@ func (g *c08gen) wide(safe bool) *TNode {
 	return t
 }
 
+// c08veryWide: 60..140 siblings (straddling 64 and 128, where a word-sized "used" set would run
+// out), mostly distinct leaves, with a repeated node near the end; the right side is the same list
+// with one of the repeats replaced (so exactly one node on each side has no counterpart although
+// every left node Equals some right node), or a reordered copy (deep-equal). The siblings sit
+// directly under the root or under a dateless EVEN / RESI, whose Equals is DeepEqualNodes of the
+// children (EVEN) or of the PLAC children (RESI).
+func (g *c08gen) veryWide() (l, r *TNode, kind string) {
+	n := g.r.Range(60, 140)
+	if g.r.Chance(1, 2) {
+		n = []int{62, 63, 64, 65, 66, 70, 126, 127, 128, 129, 130}[g.r.Intn(11)]
+	}
+	holder := g.r.Pick([]string{"", "", "EVEN", "EVEN", "RESI"})
+	leafTag := "NOTE"
+	repTag := "OCCU"
+	if holder == "RESI" {
+		leafTag, repTag = "PLAC", "PLAC" // ResidenceNode.Equals compares the PLAC children only
+	}
+	var kids []*TNode
+	for i := 0; i < n; i++ {
+		kids = append(kids, T(leafTag, fmt.Sprintf("n%d", i), ""))
+	}
+	reps := g.r.Range(2, 3)
+	pos := n // repeats near the end; sometimes a few distinct siblings follow them
+	if g.r.Chance(1, 3) {
+		pos = n - g.r.Range(1, 5)
+	}
+	var rep []*TNode
+	for i := 0; i < reps; i++ {
+		rep = append(rep, T(repTag, "farmer", ""))
+	}
+	kids = append(kids[:pos:pos], append(rep, kids[pos:]...)...)
+	wrap := func(ks []*TNode) *TNode {
+		root := T("ZROOT", "", "")
+		if holder == "" {
+			root.Kids = ks
+			return root
+		}
+		root.Kids = []*TNode{T("NAME", "John /Smith/", ""), T(holder, "", "", ks...)}
+		return root
+	}
+	clone := func(ks []*TNode) []*TNode {
+		var out []*TNode
+		for _, k := range ks {
+			out = append(out, k.Clone())
+		}
+		return out
+	}
+	l = wrap(clone(kids))
+	rk := clone(kids)
+	switch g.r.Intn(4) {
+	case 0: // deep-equal reordered copy
+		kind = "reordered copy"
+		p := g.r.Perm(len(rk))
+		sh := make([]*TNode, len(rk))
+		for i, j := range p {
+			sh[i] = rk[j]
+		}
+		rk = sh
+	case 1: // deep-equal copy with only the tail rotated (repeats stay beyond index 64)
+		kind = "tail-rotated copy"
+		k := g.r.Range(2, 6)
+		if k < len(rk) {
+			cut := len(rk) - k
+			tail := append([]*TNode{}, rk[cut:]...)
+			rk = append(rk[:cut:cut], append(tail[1:], tail[0])...)
+		}
+	default: // one repeat replaced
+		kind = "one repeat replaced"
+		rk[pos+g.r.Intn(reps)] = T(repTag, "miller", "")
+		if g.r.Chance(1, 3) { // and the whole right list reordered
+			kind = "one repeat replaced, reordered"
+			p := g.r.Perm(len(rk))
+			sh := make([]*TNode, len(rk))
+			for i, j := range p {
+				sh[i] = rk[j]
+			}
+			rk = sh
+		}
+	}
+	r = wrap(rk)
+	if g.r.Chance(1, 5) {
+		l, r = r, l
+		kind += ", sides swapped"
+	}
+	if holder != "" {
+		kind += ", under dateless " + holder
+	} else {
+		kind += ", under the root"
+	}
+	return
+}
+
 // c08family: a FAM record with HUSB / WIFE / CHIL lines and, anywhere below, more of them and
 // nested INDI / FAM nodes — the kinds that exist only inside a document (and for which
 // flattenedNodeHeader has its own branch).
@@ -1041,8 +1133,16 @@ func init() {
 			}
 		}
 
+		// 1b. very wide sibling lists (60..140)
+		for i := c.N(260, 4000); i > 0; i-- {
+			a, b, kind := g.veryWide()
+			ops := g.r.Pick([]string{"", "", "E", "S", "ES", "C", "O", "T"})
+			c.Count("very wide: " + kind)
+			c08case(c, "60..140 siblings", a, b, ops, 0)
+		}
+
 		// 2. random pairs, random orders
-		n := c.N(32000, 400000)
+		n := c.N(28000, 400000)
 		for i := 0; i < n; i++ {
 			a := g.root()
 			ops := g.randOps()
@@ -1127,3 +1227,4 @@ func init() {
 		}
 	}
 }
+
